@@ -543,7 +543,24 @@ var cfgProfiles = [][2][3]int{
 	{{1, 2, 0}, {2, 2, 1}},
 }
 
-func alphabet(cfg [2][3]int) []step {
+func alphabet(cfg [2][3]int, small bool) []step {
+	if small {
+		return []step{
+			{Kind: "start", L: 2, P: 1, B: true, Cfg: cfg[1]},
+			{Kind: "start", L: 2, P: 2, B: true, Cfg: cfg[1]},
+			{Kind: "start", L: 2, P: 1, B: false, Cfg: cfg[1]},
+			{Kind: "stop", L: 1, B: true},
+			{Kind: "stop", L: 2, B: true},
+			{Kind: "lc", L: 1, S: "A"},
+			{Kind: "lc", L: 1, S: "I"},
+			{Kind: "ed", P: 1, S: "A"},
+			{Kind: "ed", P: 1, S: "I"},
+			{Kind: "ed", P: 1, S: "P"},
+			{Kind: "lock", P: 1, B: true},
+			{Kind: "lock", P: 1, B: false},
+			{Kind: "sleep"},
+		}
+	}
 	return []step{
 		{Kind: "start", L: 1, P: 1, B: true, Cfg: cfg[0]},
 		{Kind: "start", L: 2, P: 1, B: true, Cfg: cfg[1]},
@@ -583,14 +600,10 @@ func prefixes(cfg [2][3]int) [][]step {
 	}
 }
 
-func TestRecordTrace(t *testing.T) {
+func recordTrace(t *testing.T, res *abs.Result) {
 	dir := os.Getenv("VERIF_TRACE_DIR")
-	if dir == "" {
-		t.Skip("VERIF_TRACE_DIR not set")
-	}
 	old := runtime.GOMAXPROCS(1) // same-instant reconciliations of different lifecyclers run in a stable order
 	defer runtime.GOMAXPROCS(old)
-	res := &abs.Result{}
 	rec := &recorder{dir: dir, stats: map[string]int{}, corrupt: abs.EnvInt("VERIF_CORRUPT", 0), drop: abs.EnvInt("VERIF_DROP", 0)}
 	seed := abs.Seed()
 	tailLen := abs.EnvInt("VERIF_TAIL", 2)
@@ -613,7 +626,7 @@ func TestRecordTrace(t *testing.T) {
 		if seed < 0 {
 			cfg = cfgProfiles[pi%len(cfgProfiles)]
 		}
-		alpha := alphabet(cfg)
+		alpha := alphabet(cfg, os.Getenv("VERIF_ALPHA") == "small")
 		for pfi, pf := range prefixes(cfg) {
 			idx := make([]int, tailLen)
 			for rec.fatal == "" {
@@ -710,6 +723,7 @@ func TestRecordTrace(t *testing.T) {
 	for k, v := range rec.stats {
 		res.AddExtra("trace "+k, v)
 	}
-	res.Fatal = rec.fatal
-	res.Write(t)
+	if rec.fatal != "" {
+		res.Fatal = rec.fatal
+	}
 }
